@@ -23,6 +23,8 @@ REPO = os.environ.get("VERIF_REPO", "/repo")
 PY = os.environ.get("VERIF_PY", "/venv/bin/python")
 JAVA_CP = "/opt/veriftools/tla/tla2tools.jar:/opt/veriftools/tla/CommunityModules-deps.jar"
 NCPU = max(1, min(16, os.cpu_count() or 1))
+# mutation campaign (tools/try_mutant.py): evidence and replays of runs against a scratch worktree go elsewhere
+OUT = os.environ.get("VERIF_OUT", VERIF)
 
 
 class MachineryError(Exception):
@@ -375,7 +377,7 @@ class Ctx(object):
                 self.known_hits.append(k)
                 print("KNOWN-FINDING: property=%s %s" % (self.pid, k["description"]))
             return False
-        d = os.path.join(VERIF, "replays", self.pid)
+        d = os.path.join(OUT, "replays", self.pid)
         os.makedirs(d, exist_ok=True)
         blob = json.dumps({"property": self.pid, "signature": signature, "detail": detail,
                            "replay": replay_obj}, indent=1, sort_keys=True, default=str)
@@ -418,8 +420,8 @@ class Ctx(object):
             "wall_s": round(time.time() - self.t0, 2),
             "violations": len(self.violations),
         }
-        os.makedirs(os.path.join(VERIF, "evidence"), exist_ok=True)
-        with open(os.path.join(VERIF, "evidence", self.pid + ".json"), "w") as f:
+        os.makedirs(os.path.join(OUT, "evidence"), exist_ok=True)
+        with open(os.path.join(OUT, "evidence", self.pid + ".json"), "w") as f:
             json.dump(ev, f, indent=1, default=str)
             f.write("\n")
         if self.violations:
